@@ -193,6 +193,9 @@ class Interp:
         self.max_unroll = 200
         self.active: List[str] = []
         self.havoc_log: List[str] = []
+        # default-argument values of module-/class-level functions, evaluated once per run (= per explored path), as python
+        # evaluates them once at definition time: a mutable default (`def f(x, _cache={})`) is state shared between calls
+        self.def_defaults: Dict[Any, Tuple[List[Any], Dict[str, Any]]] = {}
 
     # ------------------------------------------------------------------ resolve
     def closure_for(self, module: str, qualname: str, defcls: Any = None, accessor: Optional[str] = None) -> Closure:
@@ -445,13 +448,21 @@ class Interp:
         pos = [x.arg for x in a.posonlyargs + a.args]
         defaults = a.defaults
         if c.defaults is None:
-            dframe = Frame(None, c.module, c.parent)
-            dvals = [self.eval(d, dframe) for d in defaults]
-            kwd = {}
-            for k, d in zip(a.kwonlyargs, a.kw_defaults):
-                if d is not None:
-                    kwd[k.arg] = self.eval(d, dframe)
-            c.defaults = (dvals, kwd)
+            # (a Closure for a repo function is re-created at every resolution, so its defaults must be remembered here;
+            #  nested defs / lambdas get a new Closure -- and new defaults -- each time the `def` executes, as in python)
+            dkey = (c.key, getattr(c.node, 'lineno', 0)) if c.parent is None and not isinstance(c.node, ast.Lambda) else None
+            if dkey is not None and dkey in self.def_defaults:
+                c.defaults = self.def_defaults[dkey]
+            else:
+                dframe = Frame(None, c.module, c.parent)
+                dvals = [self.eval(d, dframe) for d in defaults]
+                kwd = {}
+                for k, d in zip(a.kwonlyargs, a.kw_defaults):
+                    if d is not None:
+                        kwd[k.arg] = self.eval(d, dframe)
+                c.defaults = (dvals, kwd)
+                if dkey is not None:
+                    self.def_defaults[dkey] = c.defaults
         dvals, kwd = c.defaults
         loc = frame.locals
         n = len(pos)
@@ -1154,6 +1165,12 @@ class Interp:
             return True
         if hasattr(v, '__pyvc_truth__'):
             return self.truth(v.__pyvc_truth__(), label)
+        if getattr(v, '__pyvc_symbolic__', False) and not isinstance(v, type):
+            # a contract-side stub standing for a program value: python's default "every object is true" would silently
+            # decide `if x:` / `not x` in the subject.  The stub must say what its truth value is.
+            t = type(v)
+            if '__bool__' not in t.__dict__ and '__len__' not in t.__dict__ and not any('__bool__' in k.__dict__ or '__len__' in k.__dict__ for k in t.__mro__[1:-1]):
+                raise Unreached('truth value of stub %s is tested by the subject but the stub defines no __pyvc_truth__' % t.__name__)
         return bool(v)
 
     def eval(self, e: ast.expr, f: Frame) -> Any:
